@@ -67,6 +67,10 @@ public:
         _info._width  = read_int();
         _info._height = read_int();
 
+        io_error_if( _info._width < 1 || _info._height < 1
+                   , "Invalid dimension in PNM file."
+                   );
+
         if( _info._type == pnm_image_type::mono_asc_t::value || _info._type == pnm_image_type::mono_bin_t::value )
         {
             _info._max_value = 1;
@@ -74,6 +78,10 @@ public:
         else
         {
             _info._max_value = read_int();
+
+            io_error_if( _info._max_value < 1
+                       , "Invalid maximum value in PNM file."
+                       );
 
             io_error_if( _info._max_value > 255
                        , "Unsupported PNM format (supports maximum value 255)"
@@ -102,6 +110,44 @@ public:
         {
             if( img_dim.y < _info._height ) { io_error( "Supplied image is too small" ); }
         }
+    }
+
+    /// Reads the next sample of a plain ( ascii ) raster.
+    unsigned int read_text_sample()
+    {
+        int ch;
+
+        // skip whitespaces, tabs, and new lines
+        do
+        {
+            ch = _io_dev.getc_unchecked();
+        }
+        while( ch == ' ' || ch == '\t' || ch == '\n' || ch == '\r' || ch == '\v' || ch == '\f' );
+
+        io_error_if( ch == EOF
+                   , "Unexpected end of PNM file."
+                   );
+
+        io_error_if( ch < '0' || ch > '9'
+                   , "Unexpected character in the raster of PNM file."
+                   );
+
+        unsigned int val = 0;
+
+        do
+        {
+            val = val * 10 + static_cast< unsigned int >( ch - '0' );
+
+            // samples have at most 16 bits
+            io_error_if( val > 65535
+                       , "Sample in the raster of PNM file is too large."
+                       );
+
+            ch = _io_dev.getc_unchecked();
+        }
+        while( '0' <= ch && ch <= '9' );
+
+        return val;
     }
 
 private:
